@@ -278,6 +278,7 @@ def run(ctx):
             ctx.violation("verify", "verification verdict differs from the healthy predicate on a storage with %s: implementation says (listing ok, verified) = %s, "
                           "the predicate says %s (%d storages differ)" % (labels or "no corruption", r[1:3] if r[0] == 0 else "listing failed", m[1:3], ndiff),
                           {"corruptions": labels, "storage": real_spec(st), "model_storage": sexp.dumps(model_storage(st))})
+        big_manifest_part(ctx, sb)
         age_part(ctx, sb)
         if not ctx.violations:
             build.ensure_vsb()
@@ -287,6 +288,27 @@ def run(ctx):
     runs_part(ctx)
     ctx.assumptions += ["regex crate matches the two name patterns as written (they are transcribed into the generator's classification)",
                         "zstd decoding fails on garbage / truncated input (observed)"]
+
+
+def big_manifest_part(ctx, sb):
+    """a manifest of several compression blocks (thousands of records) cut off in the middle: a decodable prefix, then a broken stream.
+    The healthy predicate flags it; so must the real verifier.  (The intact version must verify.)"""
+    day = 3
+    lines = [{"unique": True, "hash": hhex(100000 + i), "fp": [1, 2, 3 + i], "size": 1 + i % 7, "path_hex": (b"/p/big/%05d" % i).hex()} for i in range(4000)]
+    for label, extra, want in (("intact", {}, [1, 1]), ("cut to 60%", {"meta_truncate_permille": 600}, [1, 0]), ("cut to 97%", {"meta_truncate_permille": 970}, [1, 0])):
+        root = sb.path("big-%s" % label.replace(" ", "").replace("%", ""))
+        b = {"name": bname(day, 3600), "manifest": lines, "entries": []}
+        b.update(extra)
+        sb.write_storage({"groups": [{"name": gname(day), "backups": [b]}]}, root)
+        r = impl.run_lines([[1300, [list(root.encode())]]])[0]
+        ctx.evaluations += 1
+        ctx.count("storage.big-manifest-" + label.replace(" ", "-"))
+        ctx.nontrivial.add(("big-manifest", label))
+        got = r[1:3] if r[0] == 0 else None
+        if got != want:
+            ctx.violation("verify", "verification verdict on a 4000-record manifest %s: implementation says (listing ok, verified) = %s, the healthy predicate says %s"
+                          % (label, got, want), {"manifest_records": 4000, "corruption": label})
+            return
 
 
 def runs_part(ctx):
